@@ -982,13 +982,11 @@ theorem acct_finish {w : World} {t : Option Nat} (s : Nat) (ab : Bool) (hA : Acc
   | none => exact acct_tighten s hA ht (by simp [hs])
   | some c =>
     dsimp only
-    have A1 : Acct t (if ab then w else w.emit (.fin s (if c.aux.status = 0 then 200 else c.aux.status)
-        c.aux.started (c.aux.started && !c.aux.handler))) := by
+    have A1 : Acct t (if ab then w else w.emit (finEv s c)) := by
       split
       · exact hA
       · exact acct_emit _ hA
-    generalize (if ab then w else w.emit (.fin s (if c.aux.status = 0 then 200 else c.aux.status)
-        c.aux.started (c.aux.started && !c.aux.handler))) = W at A1 ⊢
+    generalize (if ab then w else w.emit (finEv s c)) = W at A1 ⊢
     refine acct_free s (acct_backendClose s A1 ht) (tok_none s) ?_
     intro l hl
     rw [lk_backendClose s A1] at hl
